@@ -7,12 +7,14 @@ import (
 	"errors"
 	"fmt"
 	"io"
+	"net"
 	"net/http"
 	"net/url"
 	"strings"
 	"testing"
 	"time"
 
+	"github.com/imroc/req/v3/internal/common"
 	"github.com/imroc/req/v3/internal/verifh"
 )
 
@@ -254,6 +256,93 @@ func TestVerif_C08_retrydecision(t *testing.T) {
 		if cnt[want] == 0 {
 			t.Errorf("bucket %s not reached", want)
 		}
+	}
+	s.Finish()
+}
+
+// ---------------------------------------------------------------------------------------
+// unit lane 3: what the REAL cancellation / timeout error values answer to errors.Is / errors.As,
+// behind every chain of real wrappers, vs the model's table (Req/Pool/CancelErr.lean)
+// ---------------------------------------------------------------------------------------
+
+func c08Rel(err error) string {
+	f := func(b bool) string {
+		if b {
+			return "1"
+		}
+		return "0"
+	}
+	var ne net.Error
+	to := errors.As(err, &ne) && ne.Timeout()
+	return fmt.Sprintf("c=%s d=%s t=%s", f(errors.Is(err, context.Canceled)), f(errors.Is(err, context.DeadlineExceeded)), f(to))
+}
+
+func TestVerif_C08_errclass(t *testing.T) {
+	s := verifh.New(t, "C08", "errclass",
+		"the real error values {context.Canceled, context.DeadlineExceeded, errTimeout (ResponseHeaderTimeout), tlsHandshakeTimeoutError, common.ErrRequestCanceled, errRequestCanceledConn, errServerClosedIdle, an io error} behind every chain (length 0..3) of the real wrappers {*url.Error, nothingWrittenError, transportReadFromServerError, the broken-connection wrapper produced by the real mapRoundTripError}: errors.Is(context.Canceled), errors.Is(context.DeadlineExceeded), net.Error.Timeout() through errors.As — compared with the model's table; plus the same three questions on what the real mapRoundTripError returns for a recorded cancellation cause; non-trivial = a context / timeout source")
+	srcs := []struct {
+		name string
+		err  error
+	}{
+		{"ctxCanceled", context.Canceled}, {"ctxDeadline", context.DeadlineExceeded}, {"respHeaderTimeout", errTimeout},
+		{"tlsHandshakeTimeout", tlsHandshakeTimeoutError{}}, {"reqCanceled", common.ErrRequestCanceled},
+		{"reqCanceledConn", errRequestCanceledConn}, {"serverClosedIdle", errServerClosedIdle}, {"io", io.ErrUnexpectedEOF},
+	}
+	wrap := func(c byte, err error) error {
+		switch c {
+		case 'u':
+			return &url.Error{Op: "Get", URL: "http://x/", Err: err}
+		case 'n':
+			return nothingWrittenError{err}
+		case 'r':
+			return transportReadFromServerError{err}
+		default:
+			// the wrapper only the real mapRoundTripError builds: a broken connection, bytes written
+			done := make(chan struct{})
+			close(done)
+			pc := &persistConn{t: T(), closech: make(chan struct{}), writeLoopDone: done, closed: errors.New("c08: closed"), nwrite: 7}
+			treq := &transportRequest{Request: &http.Request{Method: "GET", URL: &url.URL{Scheme: "http", Host: "x"}}}
+			return pc.mapRoundTripError(treq, 0, err)
+		}
+	}
+	var chains []string
+	chains = append(chains, "-")
+	alpha := "unrb"
+	for _, a := range alpha {
+		chains = append(chains, string(a))
+		for _, b := range alpha {
+			chains = append(chains, string(a)+string(b))
+			if verifh.Thorough() {
+				for _, c := range alpha {
+					chains = append(chains, string(a)+string(b)+string(c))
+				}
+			}
+		}
+	}
+	for _, src := range srcs {
+		for _, ch := range chains {
+			err := src.err
+			if ch != "-" {
+				for i := 0; i < len(ch); i++ {
+					err = wrap(ch[i], err)
+				}
+			}
+			got := c08Rel(err)
+			s.Count("rel:" + got)
+			s.Case(fmt.Sprintf("c08errclass %s %s", src.name, ch), got, true, "", strings.HasPrefix(src.name, "ctx") || strings.Contains(src.name, "Timeout"),
+				fmt.Sprintf("%s behind wrappers %q (%T) -> %s", src.name, ch, err, got))
+		}
+	}
+	// what mapRoundTripError hands out for a recorded cause is the cause itself
+	for i, cause := range []error{context.Canceled, context.DeadlineExceeded} {
+		done := make(chan struct{})
+		close(done)
+		pc := &persistConn{t: T(), closech: make(chan struct{}), writeLoopDone: done, closed: errors.New("c08: closed"), nwrite: 3, canceledErr: cause}
+		treq := &transportRequest{Request: &http.Request{Method: "GET", URL: &url.URL{Scheme: "http", Host: "x"}}}
+		out := pc.mapRoundTripError(treq, 0, errors.New("c08: use of closed network connection"))
+		name := []string{"ctxCanceled", "ctxDeadline"}[i]
+		s.Case(fmt.Sprintf("c08errclass %s u", name), c08Rel(&url.Error{Op: "Get", URL: "http://x/", Err: out}), true, "", true,
+			fmt.Sprintf("mapRoundTripError with canceledErr=%v, wrapped by http.Client -> %s", cause, c08Rel(out)))
 	}
 	s.Finish()
 }
